@@ -1,6 +1,6 @@
 //! Shared stubs (the trusted base, DESIGN.md §3.2) and helpers for the in-crate harnesses.
 pub use crate::verif_rt::{
-    any_bool, any_f64, any_i64, any_u16, any_u32, any_u64, any_u8, any_usize, assume,
+    any_bool, any_f64, any_i64, any_u16, any_u32, any_u64, any_u8, any_usize, any_usize_in, assume,
 };
 
 /// The map type the crate's internals use in this build (E6 shim or std).
@@ -36,6 +36,11 @@ pub fn cheap_desc(
     })
 }
 
+/// A u8 below `n` (searchable range draw).
+pub fn any_u8_below(n: u8) -> u8 {
+    any_usize_in(0, n as usize) as u8
+}
+
 /// Bit-exact f64 equality with all NaNs identified (the sum of observations may be any NaN).
 pub fn f64_same(a: f64, b: f64) -> bool {
     (a.is_nan() && b.is_nan()) || a.to_bits() == b.to_bits()
@@ -47,7 +52,7 @@ macro_rules! vcover {
         #[cfg(kani)]
         kani::cover!($c, $m);
         #[cfg(not(kani))]
-        if $c {
+        if $c && std::env::var_os("VERIF_COVER_LOG").is_some() {
             eprintln!("COVER-HIT: {}", $m);
         }
     }};
@@ -97,8 +102,7 @@ pub fn fnv_write_injective(h: &mut fnv::FnvHasher, bytes: &[u8]) {
 pub fn sym_str2(buf: &mut [u8; 2]) -> &str {
     buf[0] = any_u8();
     buf[1] = any_u8();
-    let n = any_usize();
-    assume(n <= 2);
+    let n = any_usize_in(0, 3);
     let ascii = buf[0] < 128 && buf[1] < 128 && buf[0] != 0 && buf[1] != 0;
     let two = n == 2 && buf[0] >= 0xC2 && buf[0] <= 0xDF && buf[1] >= 0x80 && buf[1] <= 0xBF;
     assume(ascii || two);
@@ -129,8 +133,7 @@ pub fn cheap_desc_keep_labels(
 pub fn sym_string2() -> String {
     let (b0, b1) = (any_u8(), any_u8());
     assume(b0 != 0 && b0 < 128 && b1 != 0 && b1 < 128);
-    let n = any_usize();
-    assume(n <= 2);
+    let n = any_usize_in(0, 3);
     let mut v = vec![b0, b1];
     unsafe {
         v.set_len(n);
